@@ -369,3 +369,34 @@ def frobOp (j : Json) : Json :=
   | _, _ => jErr "frob"
 
 end Tangelo.Driver
+
+namespace Tangelo.Driver
+open Tangelo.Codec Lean Tangelo.Qft
+
+/-- {"op":"qft","qubits":[..],"inverse":b,"swap":b} → {"gates":[["H",t]|["CP",c,t,±j]|["SWAP",a,b]]} (angle ±π/2^j) -/
+def qftOp (j : Json) : Json :=
+  match getNatList? (j.getObjValD "qubits") with
+  | some qs =>
+    let gs : List (QG Int) := qft (fun k => (k : Int)) (fun a => -a) qs (getBool j "inverse") (getBool j "swap")
+    let enc : QG Int → Json := fun g => match g with
+      | .h t => Json.arr #[Json.str "H", natJ t]
+      | .cp c t a => Json.arr #[Json.str "CP", natJ c, natJ t, intJ a]
+      | .swap a b => Json.arr #[Json.str "SWAP", natJ a, natJ b]
+    Json.mkObj [("gates", Json.arr (gs.map enc).toArray)]
+  | none => jErr "qft"
+
+/-- {"op":"iqpe","n":n,"m":m,"shots":k} → {"records":["0110",..]} (null when an outcome is not certain) -/
+def iqpeOp (j : Json) : Json :=
+  match getNat? (j.getObjValD "n"), getNat? (j.getObjValD "m"), getNat? (j.getObjValD "shots") with
+  | some n, some m, some k =>
+    match runShots Ctl.finalize m k (Ctl.init n) with
+    | some rs => Json.mkObj [("records", Json.arr (rs.map (fun r => Json.str (String.ofList (r.map (fun b => if b then '1' else '0'))))).toArray)]
+    | none => Json.mkObj [("records", Json.null)]
+  | _, _, _ => jErr "iqpe"
+
+/-- {"op":"binfrac","bits":"0101"} → {"value":"p/q"} -/
+def binFracOp (j : Json) : Json :=
+  let bs := (getStr j "bits").toList.map (fun c => c == '1')
+  Json.mkObj [("value", Json.str (let r := binFrac bs; if r.den == 1 then toString r.num else s!"{r.num}/{r.den}"))]
+
+end Tangelo.Driver
